@@ -139,6 +139,17 @@ def python_make(rng, sid, hist):
             it["pycont"] = cont
             items.append(it)
     content = gen_doc.render(items, final_newline=rng.random() >= 0.25)
+    exp = python_expected(items)
+    if rng.random() < 0.2 and len(set((g, k) for g, k, _ in exp)) == len(exp):
+        # both flags on the object, the document as a drop-in behind an empty main file (no key is defined twice, so joining
+        # changes nothing): the drop-in is read in python style like the main file would be
+        s = Scenario(sid, {"mode": "python", "items": items, "content": content, "delim": delim, "comment": comment, "dropin_both_flags": True})
+        s.file(PATH, b"")
+        s.file(PATH + b".d/50-site.conf", content)
+        s.add("NEW", 0, "opt", h(rng.choice([b"JOIN_SAME_ENTRIES=1;PYTHON_STYLE=1", b"PYTHON_STYLE=1;JOIN_SAME_ENTRIES=1"])))
+        s.add("RC", 0, h(b"app"), h(b"/usr/etc"), h(b"doc"), h(b"conf"), h(delim), h(comment))
+        s.add("RAW", 0); s.add("RAWL", 0); s.add("DUMPX", 0); s.add("ERRLOC"); s.add("FREE", 0)
+        return s
     s = docs.doc_scenario(sid, content, delim, comment, {"mode": "python", "items": items, "content": content, "delim": delim, "comment": comment},
                           PATH, opt=rng.choice([b"PYTHON_STYLE=1", b"PYTHON_STYLE=1", b"CONFIG_DIRS=.d;PYTHON_STYLE=1", b"PYTHON_STYLE=1;CONFIG_DIRS=.d"]))
     return maybe_fallback(s, rng, content)
